@@ -73,3 +73,15 @@ func WantCase(id string) bool {
 	oc := OnlyCase()
 	return oc == "" || oc == id
 }
+
+// Shard returns (index, count) of this process among parallel shards of one
+// check (VERIF_SHARD / VERIF_SHARDS); harnesses use index as an extra PRNG
+// stream selector or to partition an enumeration.
+func Shard() (int, int) {
+	i, _ := strconv.Atoi(os.Getenv("VERIF_SHARD"))
+	n, _ := strconv.Atoi(os.Getenv("VERIF_SHARDS"))
+	if n < 1 {
+		n = 1
+	}
+	return i, n
+}
